@@ -41,6 +41,13 @@ def run(ctx):
     ctx.alias = {'R6': 'R8'}
     c04.r6_chords(ctx)           # the conversion callback reaches every note of a chord
     ctx.alias = {}
+    # the clef in force after a join is the clef of the spine the join continues: which sub-spine a *v keeps (C02.R5), and every
+    # node owning its own copy of the signature context (C08.R1), decide which clef the notes below are converted under
+    from . import c02, c08
+    ctx.alias = {'R3': 'R9', 'R5': 'R9'}
+    c02.r3_r5_counts(ctx)
+    ctx.alias = {}
+    c08.check_signature_clone(ctx, 'R6')
     if ctx.tier == 'thorough':
         from .. import regen
         regen.check(ctx, 'R7')
